@@ -137,6 +137,9 @@ func runC09(c *Ctx) {
 			wd := c.TempDir(fmt.Sprintf("c09_e2e_%s_%v", fault, listed))
 			v, err := NewValidator(VCfg{Mode: "crl_only", WorkDir: wd, Storage: "disk", Interval: "1h"})
 			mustNoErr(err)
+			// a pass now: the ticker goroutine's start-up pass, whenever it is scheduled, then finds a recent pass and
+			// skips — no refresh can replace the store object while the fault is being injected below
+			v.V.VerifCRLChecker().VerifUpdateCRLs(false)
 			first := v.Verify(leaf.Cert, ca.Cert) // loads the CRL
 			if (first != nil) != listed {
 				c.Fail("", "precondition: first handshake verdict wrong before any fault", cs)
